@@ -379,3 +379,24 @@ class ServerWorld(ServerMixin, world.World):
         if user_policies:
             self.policy_files.setdefault('user.json', user_policies)
         world.World.__init__(self, actors, None, **kw)
+
+
+def server_threaded_world(*a, **kw):
+    """ThreadedWorld whose engine and sessions are made by the real
+    KmipServer (start() / serve() / _setup_connection_handler)."""
+    from sim import threaded
+
+    class ServerThreadedWorld(ServerMixin, threaded.ThreadedWorld):
+        def __init__(self, *a2, **kw2):
+            self.server_opts = kw2.pop('server_opts', None) or {}
+            self.policy_files = dict(kw2.pop('policy_files', None) or {})
+            up = kw2.get('user_policies')
+            if up:
+                self.policy_files.setdefault('user.json', up)
+                kw2['user_policies'] = None
+            threaded.ThreadedWorld.__init__(self, *a2, **kw2)
+
+        def start_engine(self):
+            ServerMixin.start_engine(self)
+            self._install_busy_timeout()
+    return ServerThreadedWorld(*a, **kw)
